@@ -262,10 +262,10 @@ def run_job(job):
         for i, sources in enumerate(inputs_for(gname, spec, mn, G)):
             if i % nsh != sh:
                 continue
-            # thorough: full product.  quick: every input meets 2 (cell, stored subset) combinations, rotating
+            # thorough: full product.  quick: every input meets 1 (cell, stored subset) combination, rotating
             # so that every (cell, subset) pair is met by many inputs (rotation offset = seed)
             if tier == "quick":
-                combos = [(cells[(i + k + seed) % len(cells)], subs[(i // len(cells) + k + seed) % len(subs)]) for k in range(2)]
+                combos = [(cells[(i + k + seed) % len(cells)], subs[(i // len(cells) + k + seed) % len(subs)]) for k in range(1)]
             else:
                 combos = [(c, sb) for c in cells for sb in subs]
             for cell, stored in combos:
